@@ -41,6 +41,10 @@ OUTPUTS = {
     "sparse_fact_off": dict(cell={"scheme": "ZM-VFNS", "process": "CC", "pto": 1, "theory": {"FactScaleVar": False}}, obs={
         "F2_charm": [("x", 0.1, 2.0), ("x", 0.1, 30.0)], "XSCHORUSCC_charm": [("y", 0.1, 2.0, 0.5), ("y", 0.1, 30.0, 0.5)], "F2_total": [("x", 1.0, 30.0), ("x", 0.3, 2.0)]}),
     "sv_off": dict(cell={"scheme": "FFNS4", "process": "EM", "pto": 2, "theory": {"RenScaleVar": False, "FactScaleVar": False}}, obs={"FL_bottom": [("x", 0.01, 300.0)]}),
+    # floats whose shortest repr is exponent notation WITHOUT a dot (1e-05, 2e-05, 1e+16): in kinematics, in the grid and in the cards; a text format that
+    # writes them with one library and reads them with another may turn them into strings (YAML 1.1 floats need the dot)
+    "extreme_floats": dict(cell={"scheme": "ZM-VFNS", "process": "NC", "pto": 0, "theory": {"MP": 1e-05, "GF": 1e-05}, "obscard": {"interpolation_xgrid": [1e-05, 1e-04, 1e-03, 1e-02, 0.1, 0.5, 1.0], "interpolation_polynomial_degree": 2, "interpolation_is_log": True, "PropagatorCorrection": 2e-05}}, obs={
+        "F2_total": [("x", 1e-05, 5.0), ("x", 2e-05, 1e16), ("x", 5e-05, 1e-05), ("x", 0.3, 5e15)], "XSHERANC_total": [("y", 2e-05, 5.0, 1e-05), ("y", 0.3, 1e16, 3e-05)], "FL_light": [("x", 1e-05, 1e-05)]}),
 }
 OPS = ["yaml", "tar", "yamlfile"]
 
@@ -51,7 +55,7 @@ RULE = (
     "non-trivial = word length >= 2 or the output has a special shape; distinct_outcomes = distinct typed skeletons reached"
 )
 ASSUMPTIONS = [
-    "outputs are the 14 listed ones (two of them with a first point whose blocks are all zero while later points are not, with one scale variation switched off) (incl. one with 3-7 points per observable in cyclic Q2 disorder with ties and a repeated point) (incl. one with all ten cross-section kinds) on grids G6/L7; words up to length 3 (quick: letters yaml,tar) / 4 (thorough: yaml,tar,yamlfile up to 3, yaml,tar at 4)",
+    "outputs are the 15 listed ones (one with dot-less exponent floats such as 1e-05 / 1e+16 in kinematics, grid and cards) (two of them with a first point whose blocks are all zero while later points are not, with one scale variation switched off) (incl. one with 3-7 points per observable in cyclic Q2 disorder with ties and a repeated point) (incl. one with all ten cross-section kinds) on grids G6/L7; words up to length 3 (quick: letters yaml,tar) / 4 (thorough: yaml,tar,yamlfile up to 3, yaml,tar at 4)",
     "cards are compared by value after normalising numpy arrays/scalars and tuples to lists/builtins (the serialisation is not required to preserve container types of the card)",
     "a None observable is produced by assigning None after the run (the runner itself never produces one)",
 ]
